@@ -99,3 +99,13 @@ claim("C06", "other",
       "outside the PyVC subset, so no value-level obligation is claimed as proved.",
       TB + "Cases whose decision sits on a bound within rounding (or whose convergence quantities are zero only up to rounding) are set aside by the oracle.",
       "structural contract obligations on the AST + bounded native comparison with an independent re-implementation of the published algorithm", "DESIGN.md 5/C06")
+
+claim("C13", "other",
+      "Bounded only (no obligation discharged deductively): the C13 contract is evaluated natively - STA/LTA: for every admissible number of "
+      "samples per STA/LTA a window is kept iff all ratios of all examined components lie inside the limits (cases within 1e-9 of a limit are "
+      "set aside), the returned list holds exactly those windows, in order, as the same objects; records unmodified; attached traditional / "
+      "azimuthal objects end with masks equal to the selection (also when they carried other masks before); amplitude scales 1e-13..1e5; "
+      "several components = conjunction; widening limits only re-keeps. Maximum value: keep iff the largest absolute sample (relative to the "
+      "overall largest when normalised) is below the threshold, masks follow the last call of a call sequence.",
+      "Trusted: numpy; the oracle. Bound: 2-6 windows x 400-900 samples (STA/LTA), 1-7 windows x 20-100 samples (maximum value), quick 90+120 / thorough 2000+2500 cases.",
+      "bounded native evaluation of the contract (stand-in; the functions are outside the PyVC subset: reshape/mean(axis), isinstance dispatch)", "DESIGN.md 5/C13")
